@@ -1,4 +1,5 @@
 import Tickit.Model.EvLoop
+import Tickit.Model.EvLoopMulti
 /-
   The executable specification of C17 and C18: an abstract event loop (a set of watches with a
   registration sequence number, a clock, the kernel's pending signals) that *checks* a callback log,
@@ -15,9 +16,17 @@ import Tickit.Model.EvLoop
   live IO watches; an IO watch is invoked exactly with the conditions reported for its descriptor,
   at most once, and never after it was cancelled.
 
-  A history leaves *valid usage* when it cancels a watch that is not live (already fired, cancelled),
-  or lets a signal with default action "terminate" reach the process unwatched; from then on every
-  verdict is `""` (`misuse`).
+  A history leaves *valid usage* when it cancels a watch that is not live (already fired, cancelled)
+  or that belongs to another instance, or lets a signal with default action "terminate" reach the
+  process unwatched; from then on every verdict is `""` (`misuse`).
+
+  Several toplevel instances: watches belong to the instance they were registered on; an iteration of
+  instance `c` is held to the clauses for `c`'s watches only, and no other instance's watch may be
+  invoked by it.  Signals are process wide: a signal is kept pending while *any* instance has a
+  watcher of it; when the kernel delivers it (inside whichever instance's wait) it is owed to the
+  watchers of every instance, each in its own instance's next iteration.  The specification also
+  tracks which instance the process's signal observer is (the first one built while there is none,
+  until it is destroyed) — only to say so in its messages.
 -/
 namespace Tickit.EvLoop.Spec
 open Tickit.EvLoop
@@ -37,6 +46,7 @@ structure SW where
   pid : Int := 0
   state : WState := .live
   fires : Nat := 0
+  inst : Nat := 0                -- the instance it was registered on
 deriving Repr, Inhabited
 
 /-- What is known about the current iteration. -/
@@ -44,7 +54,8 @@ structure TickInfo where
   now : TV := ⟨0, 0⟩
   pollSeq : Nat := 0
   ret : Option Nat := some 0
-  delivered : List Int := []
+  delivered : List Int := []                  -- signals owed to this instance's watchers in this iteration
+  origin : List (Int × Nat) := []             -- … and the instance in whose wait the kernel delivered each
   ioInvoked : List Int := []
   sigInvoked : List Int := []
   lastTimer : Option (Int × Nat) := none      -- slot, sequence counter when it fired
@@ -62,9 +73,12 @@ structure SSt where
   inpoll : List Int := []
   laterQ : List Int := []        -- deferred callbacks in queue order (FIRST goes to the front)
   sigQ : List Int := []          -- signal watchers in list order
-  internalSigs : List Int := [SIGWINCH]   -- watched by the instance itself (SIGCHLD once a process watch exists)
+  internalSigs : List (Nat × Int) := [(0, SIGWINCH)]   -- (instance, signal) watched by the instance itself (SIGCHLD once a process watch exists)
+  cur : Nat := 0                 -- the instance operated on
+  alive : List Nat := [0]        -- instances built and not destroyed
+  observer : Option Nat := some 0
+  owed : List (Nat × Int × Nat) := []   -- (instance, signal, instance in whose wait it was delivered): delivered, not yet dispatched there
   misuse : Bool := false
-  dead : Bool := false
   crashed : Bool := false
   started : Bool := false
   prop : Nat := 0                -- 17 / 18: evaluate only that property's clauses; 0: all
@@ -77,8 +91,14 @@ def SSt.c18 (s : SSt) : Bool := s.prop ≠ 17
 
 def find (s : SSt) (k : Int) : Option SW := s.ws.find? (·.k = k)
 def upd (s : SSt) (k : Int) (f : SW → SW) : SSt := { s with ws := s.ws.map fun w => if w.k = k then f w else w }
-def liveOf (s : SSt) (kind : WType) : List SW := s.ws.filter fun w => w.kind = kind && w.state = .live
+/-- Live watches of the current instance. -/
+def liveOf (s : SSt) (kind : WType) : List SW := s.ws.filter fun w => w.kind = kind && w.state = .live && w.inst = s.cur
+/-- Watchers of a signal in the current instance. -/
 def watchersOf (s : SSt) (sig : Int) : List SW := (liveOf s .signal).filter (·.signum = sig)
+/-- Is the signal watched by anybody in the process (a live watch of any instance, or an instance itself)? -/
+def held (s : SSt) (sig : Int) : Bool :=
+  s.ws.any (fun w => w.kind = .signal && w.state = .live && w.signum = sig) || s.internalSigs.any (·.2 = sig)
+def SSt.dead (s : SSt) : Bool := !s.alive.contains s.cur
 
 /-! ### parsing the implementation's observation -/
 
@@ -148,7 +168,7 @@ def register (s : SSt) (w : SW) : SSt :=
   | some _ => s                       -- `dup`: the harness ignores it
   | none =>
     if w.k < 0 || w.k ≥ MAXW then s else
-    let s := { s with ws := s.ws ++ [{ w with seq := s.seq }], seq := s.seq + 1 }
+    let s := { s with ws := s.ws ++ [{ w with seq := s.seq, inst := s.cur }], seq := s.seq + 1 }
     match w.kind with
     | .later => { s with laterQ := if w.flags &&& BIND_FIRST ≠ 0 then w.k :: s.laterQ else s.laterQ ++ [w.k] }
     | .signal => { s with sigQ := if w.flags &&& BIND_FIRST ≠ 0 then w.k :: s.sigQ else s.sigQ ++ [w.k] }
@@ -156,13 +176,13 @@ def register (s : SSt) (w : SW) : SSt :=
 
 /-- The signal lost its last watcher: the loop restores the default action and unblocks it. -/
 def afterUnwatch (s : SSt) (sig : Int) : SSt :=
-  if (watchersOf s sig).isEmpty && !s.internalSigs.contains sig && s.raised.contains sig then
+  if !held s sig && s.raised.contains sig then
     let s := { s with raised := s.raised.filter (· ≠ sig) }
     if sigTerminates sig then { s with misuse := true } else s
   else s
 
 def raiseS (s : SSt) (sig : Int) : SSt :=
-  if (watchersOf s sig).isEmpty && !s.internalSigs.contains sig then
+  if !held s sig then
     if sigTerminates sig then { s with misuse := true } else s
   else { s with raised := if s.raised.contains sig then s.raised else sig :: s.raised }
 
@@ -182,13 +202,13 @@ def applyAct (s : SSt) (a : Act) : SSt × List (Int × Nat × WType) :=
     if validPid pid then
       let fresh := (find s k).isNone && 0 ≤ k && k < MAXW
       let s := register s { k := k, kind := .process, flags := f, seq := 0, pid := pid }
-      (if fresh && !s.internalSigs.contains SIGCHLD then { s with internalSigs := SIGCHLD :: s.internalSigs } else s, [])
+      (if fresh && !s.internalSigs.contains (s.cur, SIGCHLD) then { s with internalSigs := (s.cur, SIGCHLD) :: s.internalSigs } else s, [])
     else (s, [])
   | .cancel k =>
     match find s k with
     | none => (s, [])
     | some w =>
-      if w.state ≠ .live then ({ s with misuse := true }, [])
+      if w.state ≠ .live || w.inst ≠ s.cur then ({ s with misuse := true }, [])
       else
         let s := upd s k fun w => { w with state := .cancelled }
         let s := if w.kind = .signal then afterUnwatch s w.signum else s
@@ -281,6 +301,8 @@ def fireClauses (s : SSt) (w : SW) (flags : Nat) (info : Info) (inTick : Bool) :
   let k := w.k
   if w.state ≠ .live then
     s!"{kindName w.kind} {k} was invoked (flags {flags}) although it is {stateName w.state}"
+  else if w.inst ≠ s.cur then
+    s!"{kindName w.kind} {k} belongs to instance {w.inst} and was invoked (flags {flags}) by an operation on instance {s.cur}"
   else if !inTick then s!"{kindName w.kind} {k} was invoked outside a loop iteration"
   else
   match w.kind with
@@ -405,9 +427,21 @@ def checkTick (s : SSt) (hang : Bool) (evs : List PEv) (cut : Bool) : Except Str
     if s.misuse then .ok s else
     let count := (ios.filter fun w => reventsOf s w ≠ 0).length
     let wantRet : Option Nat := if count > 0 then some count else if s.raised.isEmpty then some 0 else none
-    if ret ≠ wantRet then .error s!"harness: the wait returned {ret}, expected {wantRet}" else
-    let delivered := if wantRet = none then s.raised else []
-    let s := if wantRet = none then { s with raised := [] } else s
+    if ret ≠ wantRet then
+      (if wantRet = none then
+         .error s!"signals {s.raised} were raised while watched and the wait of this iteration did not deliver them (it returned {ret})"
+       else .error s!"harness: the wait returned {ret}, expected {wantRet}") else
+    -- what the kernel delivers inside this wait is owed to the watchers of every instance; this instance's
+    -- share — and what was delivered inside other instances' waits since its last iteration — is due now
+    let here := if wantRet = none then s.raised else []
+    let s := if wantRet = none then
+        { s with raised := [],
+                 owed := s.owed ++ (s.alive.filter (· ≠ s.cur)).flatMap fun i => here.map fun sg => (i, sg, s.cur) }
+      else s
+    let mine := s.owed.filter (·.1 = s.cur)
+    let s := { s with owed := s.owed.filter (·.1 ≠ s.cur) }
+    let origin := here.map (fun sg => (sg, s.cur)) ++ mine.map fun x => (x.2.1, x.2.2)
+    let delivered := origin.map (·.1)
     let s := if wantRet = some 0 then
         match timeout with
         | some ms => { s with clockUs := s.clockUs + ms * 1000 }
@@ -415,7 +449,7 @@ def checkTick (s : SSt) (hang : Bool) (evs : List PEv) (cut : Bool) : Except Str
       else s
     if !hang && timeout ≠ some 0 then .error s!"a non-blocking iteration waited with timeout {timeout}" else
     let now := TV.ofUs s.clockUs
-    let s := { s with tk := { now := now, pollSeq := s.seq, ret := ret, delivered := delivered } }
+    let s := { s with tk := { now := now, pollSeq := s.seq, ret := ret, delivered := delivered, origin := origin } }
     let dueTimers := (liveOf s .timer).filter fun w => !w.due.gt now
     let batch := liveOf s .later
     let ioWant := if count > 0 then ios.filter (fun w => reventsOf s w ≠ 0) else []
@@ -435,7 +469,13 @@ def checkTick (s : SSt) (hang : Bool) (evs : List PEv) (cut : Bool) : Except Str
       | some w => .error s!"io watch {w.k}: descriptor {w.fd} was reported ready and the watch was not invoked"
       | none =>
       match (if s.c18 then sigWant else []).find? (fun w => stillLive w && !s.tk.sigInvoked.contains w.k) with
-      | some w => .error s!"signal {w.signum} was delivered during the wait of this iteration and signal watch {w.k} was not invoked"
+      | some w =>
+        let from_ := match origin.find? (·.1 = w.signum) with | some (_, j) => j | none => s.cur
+        if from_ ≠ s.cur then
+          .error s!"signal {w.signum} was delivered to the process during the wait of instance {from_} and signal watch {w.k} of instance {s.cur} was not invoked in the next iteration of instance {s.cur}"
+        else if s.observer ≠ some s.cur then
+          .error s!"signal {w.signum} was delivered during the wait of this iteration and signal watch {w.k} was not invoked (instance {s.cur} is not the signal observer of the process: the default loop records signals for one toplevel instance)"
+        else .error s!"signal {w.signum} was delivered during the wait of this iteration and signal watch {w.k} was not invoked"
       | none => .ok s
   | _ =>
     if cut then
@@ -463,43 +503,68 @@ def checkRun (s : SSt) (evs : List PEv) (cut : Bool) : Except String SSt :=
       | .ok s => if s.misuse then .ok s else go s (i + 1) rest
   go s 0 segs
 
-/-- Destruction: every remaining watch that asked for it is notified exactly once. -/
+/-- The abstract effect of destroying the current instance: its live watches are gone, it watches nothing
+    itself any more; signals nobody else keeps watched leave the kernel's pending set. -/
+def destroyMark (s : SSt) : SSt :=
+  let s := { s with ws := s.ws.map (fun (w : SW) => if w.state = WState.live && w.inst = s.cur then { w with state := .destroyed } else w),
+                    internalSigs := s.internalSigs.filter (·.1 ≠ s.cur),
+                    alive := s.alive.filter (· ≠ s.cur),
+                    observer := if s.observer = some s.cur then none else s.observer,
+                    owed := s.owed.filter (·.1 ≠ s.cur) }
+  { s with raised := s.raised.filter (held s) }
+
+/-- Destruction: every remaining watch of the instance that asked for it is notified exactly once; nobody else is. -/
 def checkDestroy (s : SSt) (evs : List PEv) (cut : Bool) : Except String SSt :=
-  -- a pending signal whose watchers go away with the instance reaches the process with its default action
-  if s.raised.any sigTerminates then .ok { s with misuse := true, dead := true } else
+  -- a pending signal whose last watchers go away with the instance reaches the process with its default action
+  if (s.raised.filter fun sg => !held (destroyMark s) sg).any sigTerminates then .ok { destroyMark s with misuse := true } else
   if cut then .ok s else
-  if !s.c17 then .ok { s with ws := s.ws.map (fun w => if w.state = .live then { w with state := .destroyed } else w), dead := true } else
+  if !s.c17 then .ok (destroyMark s) else
   let cbs := evs.filterMap fun e => match e with | .cb k f _ => some (k, f) | _ => none
   match cbs.find? (fun (_, f) => f &&& EV_FIRE ≠ 0) with
   | some (k, f) => .error s!"watch {k} was fired (flags {f}) by the destruction of the instance"
   | none =>
   let count (k : Int) : Nat := (cbs.filter fun (k', f) => k' = k && f &&& EV_DESTROY ≠ 0).length
   let any (k : Int) : Nat := (cbs.filter fun (k', _) => k' = k).length
-  match s.ws.find? (fun w => w.state = .live && w.flags &&& BIND_DESTROY ≠ 0 && count w.k ≠ 1) with
+  let mine (w : SW) : Bool := w.state = .live && w.inst = s.cur
+  match s.ws.find? (fun w => mine w && w.flags &&& BIND_DESTROY ≠ 0 && count w.k ≠ 1) with
   | some w => .error s!"{kindName w.kind} {w.k} asked for a destroy notification and got {count w.k}"
   | none =>
-  match s.ws.find? (fun w => w.state = .live && w.flags &&& (BIND_DESTROY ||| BIND_UNBIND) = 0 && any w.k ≠ 0) with
+  match s.ws.find? (fun w => mine w && w.flags &&& (BIND_DESTROY ||| BIND_UNBIND) = 0 && any w.k ≠ 0) with
   | some w => .error s!"{kindName w.kind} {w.k} asked for no notification and got one at destruction"
   | none =>
-  match s.ws.find? (fun w => w.state = .live && any w.k > 1) with
+  match s.ws.find? (fun w => mine w && any w.k > 1) with
   | some w => .error s!"{kindName w.kind} {w.k} was notified {any w.k} times at destruction"
+  | none =>
+  match s.ws.find? (fun w => w.state = .live && w.inst ≠ s.cur && any w.k ≠ 0) with
+  | some w => .error s!"{kindName w.kind} {w.k} of instance {w.inst} was notified by the destruction of instance {s.cur}"
   | none =>
   match s.ws.find? (fun w => w.state ≠ .live && any w.k ≠ 0) with
   | some w => .error s!"{kindName w.kind} {w.k} is {stateName w.state} and was notified at destruction"
-  | none =>
-    let term := s.raised.any sigTerminates
-    .ok { s with ws := s.ws.map (fun w => if w.state = .live then { w with state := .destroyed } else w), dead := true,
-                 misuse := s.misuse || term }
+  | none => .ok (destroyMark s)
+
+/-- `inst i`: make instance `i` current, building it when it does not exist (the first instance built while
+    the process has no signal observer becomes it). -/
+def instS (s : SSt) (i : Nat) : SSt :=
+  if i ≥ NINST then s
+  else if s.alive.contains i then { s with cur := i }
+  else { s with cur := i, alive := s.alive ++ [i], internalSigs := (i, SIGWINCH) :: s.internalSigs,
+                observer := if s.observer.isNone then some i else s.observer }
 
 /-- One operation line. `why` is the model's explanation of a crash it predicts (used only to word the message). -/
-def step (s : SSt) (op : Op) (impl : List String) (why : String) (owner : Nat := 0) : SSt × String :=
-  if s.crashed && (match op with | .new _ => false | _ => true) then (s, "") else
+def step (s : SSt) (wop : WOp) (impl : List String) (why : String) (owner : Nat := 0) : SSt × String :=
+  let isNew := match wop with | .op (.new _) => true | _ => false
+  if s.crashed && !isNew then (s, "") else
   let crashMsg (how : String) : String :=
     s!"the library crashed ({how}) on valid usage" ++ (if why.isEmpty then "" else s!": {why}")
-  match op with
-  | .new p => ({ init with started := true, prop := p }, "")
-  | .bad => (s, "")
-  | _ =>
+  match wop with
+  | .op (.new p) => ({ init with started := true, prop := p }, "")
+  | .op .bad => (s, "")
+  | .use i => (if i < NINST then { s with cur := i } else s, "")
+  | .inst i =>
+    (match impl with
+     | "CRASH" :: rest => ({ instS s i with crashed := true }, if s.misuse then "" else crashMsg (" ".intercalate rest))
+     | _ => (instS s i, ""))
+  | .op op =>
   -- a line `CRASH …`: the process died before the operation produced any event
   let parsed : Option (List PEv × Bool × String) :=
     match impl with
@@ -507,13 +572,17 @@ def step (s : SSt) (op : Op) (impl : List String) (why : String) (owner : Nat :=
     | _ => if op = .finish then some ([], false, "") else
       (parseEvents impl).map fun (evs, cut) => (evs, cut, "during the operation")
   match parsed with
-  | none => (s, "unparsable observation")
+  | none => if s.dead then (s, "") else (s, "unparsable observation")
   | some (evs, cut, how) =>
-    if s.dead && !cut then
-      if op = .finish && !s.misuse && s.c17 && impl ≠ ["leaks=0"] then
-        (s, s!"memory was leaked ({" ".intercalate impl})" ++ (if why.isEmpty then "" else s!": {why}"))
-      else (s, "")
+    if op ≠ .finish && s.dead && !cut then (s, "")
     else if s.misuse then ({ s with crashed := cut }, "") else
+    -- a raise of a signal somebody watches must leave it pending, not run its default action
+    let heldRaise : Option (Int × List Int) := match op with
+      | .act (.raise sg) =>
+        if validSig sg && held s sg then
+          some (sg, (s.ws.filter fun w => w.kind = .signal && w.state = .live && w.signum = sg).map (·.k))
+        else none
+      | _ => none
     let r : Except String SSt :=
       match op with
       | .finish =>
@@ -539,7 +608,11 @@ def step (s : SSt) (op : Op) (impl : List String) (why : String) (owner : Nat :=
       if cut then
         -- a crash the model attributes to the other property's territory is that property's to report
         if s.misuse || (owner ≠ 0 && s.prop ≠ 0 && owner ≠ s.prop) then ({ s with crashed := true }, "")
-        else ({ s with crashed := true }, crashMsg how)
+        else match heldRaise with
+          | some (sg, ks) =>
+            ({ s with crashed := true },
+             s!"signal {sg} was raised while watched (signal watches {ks}) and its default action ran ({how}): the signal was not kept blocked for its watchers")
+          | none => ({ s with crashed := true }, crashMsg how)
       else (s, "")
     | .error e => ({ s with crashed := true }, e)     -- one verdict per history: the abstract state is no longer in step
 
